@@ -347,7 +347,7 @@ def diff_fields(a: Dict[str, Any], b: Dict[str, Any]) -> Optional[Tuple[str, int
     return None
 
 
-def check_finite(P: C.Part, res, sig: Dict[str, Any], rp: Dict[str, Any], where: str) -> None:
+def check_finite(P: C.Part, res, sig: Dict[str, Any], rp: Dict[str, Any], where: str) -> Optional[int]:
     """sub-claim d on one result: every density / coherence / transfer-function value finite, error bars finite where coh > 0"""
     with warnings.catch_warnings(), np.errstate(all="ignore"):
         warnings.simplefilter("ignore")
@@ -370,9 +370,11 @@ def check_finite(P: C.Part, res, sig: Dict[str, Any], rp: Dict[str, Any], where:
                                  f"YY={float(res.YY[j])!r}, XY={complex(res.XY[j])!r}, S2={float(res.S2[j])!r}, navg={int(res.navg[j])}"
                                  + (f", coh={float(coh[j])!r}" if coh is not None else "") + ")",
                             signature=dict(sig, subclaim="finite", attr=name), replay=rp))
-                        return
+                        return j
         except Exception as ex:
             P.violations.append(C.Violation(what=f"{where}: reading the attributes raised {ex!r}", signature=dict(sig, subclaim="finite", raises=True), replay=rp))
+            return -1
+    return None
 
 
 def in_domain(x: np.ndarray, y: Optional[np.ndarray]) -> bool:
@@ -645,9 +647,12 @@ def synthetic_finite(ctx, P: C.Part, n: int) -> None:
         for i in range(n):
             P.nontrivial.add(("synthetic", mode, i % 2 == 1, bins[i]["XX"] == 0, bins[i]["YY"] == 0, bins[i]["S2"] == 0, bins[i]["navg"] == 1))
         P.hit(f"synthetic.{mode}", n)
-        check_finite(P, res, {"present": "synthetic", "mode": mode}, {"synthetic": {"mode": mode, "fs": fs, "bins": [
-            {k: (hexs([complex(b[k]).real, complex(b[k]).imag]) if k == "XY" else (int(b[k]) if k == "navg" else C.f2h(b[k]))) for k in b} for b in bins]}},
-            f"SpectrumResult({mode}, synthetic bins)")
+        def enc(bs):
+            return [{k: (hexs([complex(b[k]).real, complex(b[k]).imag]) if k == "XY" else (int(b[k]) if k == "navg" else C.f2h(b[k]))) for k in b} for b in bs]
+        rp: Dict[str, Any] = {"synthetic": {"mode": mode, "fs": fs, "bins": []}}
+        j = check_finite(P, res, {"present": "synthetic", "mode": mode}, rp, f"SpectrumResult({mode}, synthetic bins)")
+        if j is not None:
+            rp["synthetic"]["bins"] = enc(bins if j < 0 else [bins[j]])      # only the failing bin goes into the replay file
 
 
 def two_by_two(ctx, P: C.Part) -> None:
@@ -942,9 +947,9 @@ def oracle(ctx, intensive: bool = False, hints: List[Dict[str, Any]] = ()) -> C.
     corpus(ctx, P)
     two_by_two(ctx, P)
     tiny_sizes(ctx, P)
-    synthetic_finite(ctx, P, ctx.scale(200, 2000) * mult)
-    n_fin = ctx.scale(2 * len(DEGENERATE), 10 * len(DEGENERATE)) * mult
-    n_lay = ctx.scale(70, 700) * mult
+    synthetic_finite(ctx, P, ctx.scale(400, 4000) * mult)
+    n_fin = ctx.scale(4 * len(DEGENERATE), 24 * len(DEGENERATE)) * mult
+    n_lay = ctx.scale(160, 1600) * mult
     # interleave so that a time limit cuts both streams evenly
     gi_f = gi_l = 0
     while (gi_f < n_fin or gi_l < n_lay) and len(P.violations) < MAX_VIOL:
